@@ -1,5 +1,5 @@
 // Marlin (marlin/mod.rs, marlin/marlin_pc): verifier-side accumulation, single check, shift powers.
-//@use core ops_gen poly labeled sponge std
+//@use core ops_gen poly labeled labeled_comm sponge std
 //@spec ring
 //@typemap /::<E, P, Self>::/ => ::
 //@typemap /::<E, P>::/ => ::
